@@ -275,10 +275,18 @@ def input_positions(text):
             c = chains.setdefault(l[21], [])
             if not c or c[-1] != k:
                 c.append(k)
+    # a chain whose first N lies within the amide distance (1.35 A) of its last C is a head-to-tail ring and has no
+    # terminal residue at all (C02); rigidly placed fragments can close such a "ring" by accident
+    coords = {}
+    for l in text.splitlines():
+        if l.startswith("ATOM") and l[12:16].strip() in ("N", "C"):
+            coords[((l[21], int(l[22:26])), l[12:16].strip())] = (float(l[30:38]), float(l[38:46]), float(l[46:54]))
     out = {}
     for p in chains.values():
+        n, c = coords.get((p[0], "N")), coords.get((p[-1], "C"))
+        ring = n is not None and c is not None and sum((a - b) ** 2 for a, b in zip(n, c)) < 1.35 * 1.35
         for j, k in enumerate(p):
-            out[k] = "N" if j == 0 else "C" if j == len(p) - 1 else ""
+            out[k] = "" if ring else "N" if j == 0 else "C" if j == len(p) - 1 else ""
     return out
 
 
